@@ -104,6 +104,67 @@ func selectCaseEdge(sel *ssa.Select, k int) (sx.Edge, bool) {
 	return out, found
 }
 
+// selectDefaultEdge returns the edge taken when a non-blocking select finds no
+// case ready: the false edge of the test of its last state.
+func selectDefaultEdge(sel *ssa.Select) (sx.Edge, bool) {
+	if sel.Blocking || len(sel.States) == 0 {
+		return sx.Edge{}, false
+	}
+	var idx ssa.Value
+	for _, r := range *sel.Referrers() {
+		if e, ok := r.(*ssa.Extract); ok && e.Index == 0 {
+			idx = e
+		}
+	}
+	if idx == nil {
+		return sx.Edge{}, false
+	}
+	var out sx.Edge
+	found := false
+	last := len(sel.States) - 1
+	sx.AllInstrs(sel.Parent(), func(_ sx.Node, in ssa.Instruction) {
+		ifi, ok := in.(*ssa.If)
+		if !ok {
+			return
+		}
+		b, ok := ifi.Cond.(*ssa.BinOp)
+		if !ok || b.Op != token.EQL || b.X != idx {
+			return
+		}
+		c, ok := b.Y.(*ssa.Const)
+		if !ok || c.Value == nil {
+			return
+		}
+		if v, ok := constant.Int64Val(c.Value); ok && int(v) == last {
+			_, out = sx.CondEdges(ifi)
+			found = true
+		}
+	})
+	return out, found
+}
+
+// ctxPollEdges: a non-blocking select whose only case is a receive from Done() of a context
+// matching isCtx is a test of that context: (ended edge, alive edge).
+func ctxPollEdges(fn *ssa.Function, isCtx func(ssa.Value) bool) (ended, alive []sx.Edge) {
+	sx.AllInstrs(fn, func(_ sx.Node, in ssa.Instruction) {
+		sel, ok := in.(*ssa.Select)
+		if !ok || sel.Blocking || len(sel.States) != 1 || sel.States[0].Dir != types.RecvOnly {
+			return
+		}
+		cv, isDone := isDoneOf(sel.States[0].Chan)
+		if !isDone || !isCtx(cv) {
+			return
+		}
+		if e, found := selectCaseEdge(sel, 0); found {
+			ended = append(ended, e)
+		}
+		if e, found := selectDefaultEdge(sel); found {
+			alive = append(alive, e)
+		}
+	})
+	return
+}
+
 // selectRecvValue returns the Extract holding the value received by state k.
 func selectRecvValue(sel *ssa.Select, k int) ssa.Value {
 	pos := 2
